@@ -208,6 +208,23 @@ func generate(emit func(caseIn)) {
 		}
 	}
 
+	// 2b. the variadic Response.DecodeProp, called directly with two values on every response of
+	//     every valid document, mutation and status placement
+	pairDocs := []string{"statfile", "statdir", "readdir", "sync", "cardobjects"}
+	if thorough {
+		pairDocs = docNames
+	}
+	for _, dn := range pairDocs {
+		doc := docs[dn]
+		emit(caseIn{method: "DecodePropPair", r: respSpec{body: doc.render()}})
+		for _, mu := range mutations(doc) {
+			emit(caseIn{method: "DecodePropPair", r: respSpec{body: mutate(doc, mu).render()}})
+		}
+		for _, pl := range placements(doc) {
+			emit(caseIn{method: "DecodePropPair", r: respSpec{body: place(doc, pl).render()}})
+		}
+	}
+
 	// 3. raw bodies x content types x a few statuses, for every method
 	for _, m := range methods {
 		for _, rn := range rawNames {
